@@ -232,7 +232,7 @@ fn gen(rng: &mut Rng, tier: &str) -> Vec<(String, Value)> {
         }
     }
     // (f) histories of 2-3 runs on one cache
-    let nhist = if thorough { 210 } else { 49 };
+    let nhist = if thorough { 280 } else { 84 };
     for i in 0..nhist {
         let mut r = rng.fork();
         let mut s = loop { let s = make_world(&mut r, 1 + (i % 2), 2, 3, 2); if aspa_customers_unique(&s.spec) && s.spec.cas.len() >= 2 { break s } };
